@@ -17,7 +17,7 @@ int __wrap_gettimeofday (struct timeval *tv, void *tz) { (void) tz ; if (tv) { t
 enum { K_WRITE, K_READ, K_RDWR, K_ERRORS, K_PATHWRITE, K_SD2, K_N } ;
 static const char *kname [] = { "write", "read", "rdwr", "errors", "path-write", "sd2" } ;
 #define MAXSTEPS 24
-typedef struct { int kind, format, ch, nsteps ; uint64_t seed ; } SPEC ;
+typedef struct { int kind, format, ch, nsteps, rate ; uint64_t seed ; } SPEC ;
 typedef struct
 {	SPEC sp ; int step, done ; uint64_t rs ; SNDFILE *s ; MEMF m ; char path [360] ; int t ; long wrote ;
 	uint64_t tr [MAXSTEPS + 4] ; char what [MAXSTEPS + 4][40] ; int ntr ;
@@ -32,6 +32,7 @@ static void rec (INST *in, const char *what, long rc, const void *buf, size_t n)
 }
 static void gen_frames (INST *in, void *buf, int t, int frames)
 {	int i, n = frames * in->sp.ch ; for (i = 0 ; i < n ; i++) { double v = 0.5 * sin ((in->wrote * in->sp.ch + i) * 0.02) + ((int) (inst_rnd (in) % 201) - 100) / 1000.0 ;
+		if (t >= T_FLOAT && inst_rnd (in) % 48 == 0) { static const double sp [] = { 1e-35, -1e-33, -0.0, 3e-39, 1e-30, -2e-38, 1.0e-45 } ; v = sp [inst_rnd (in) % 7] ; }		/* tiny, denormal and negative-zero values: where float serialisers differ */
 		switch (t) { case T_SHORT : ((short *) buf) [i] = (short) (v * 30000) ; break ; case T_INT : ((int *) buf) [i] = (int) (v * 2e9) ; break ; case T_FLOAT : ((float *) buf) [i] = (float) v ; break ; default : ((double *) buf) [i] = v ; } } }
 
 static void inst_init (INST *in, const SPEC *sp, int slot)
@@ -46,8 +47,8 @@ static int inst_step (INST *in)
 	memset (&si, 0, sizeof (si)) ;
 	if (st == 0)		/* ---- open */
 	{	switch (sp->kind)
-		{	case K_WRITE : case K_ERRORS : si.format = sp->format ; si.channels = ch ; si.samplerate = 8000 ; in->s = sf_open_virtual (&MVIO, SFM_WRITE, &si, &in->m) ; break ;
-			case K_PATHWRITE : case K_SD2 : si.format = sp->format ; si.channels = ch ; si.samplerate = 8000 ; in->s = sf_open (in->path, SFM_WRITE, &si) ; break ;
+		{	case K_WRITE : case K_ERRORS : si.format = sp->format ; si.channels = ch ; si.samplerate = sp->rate ; in->s = sf_open_virtual (&MVIO, SFM_WRITE, &si, &in->m) ; break ;
+			case K_PATHWRITE : case K_SD2 : si.format = sp->format ; si.channels = ch ; si.samplerate = sp->rate ; in->s = sf_open (in->path, SFM_WRITE, &si) ; break ;
 			default : if (vh_make_file (&in->m, sp->format, ch, 8000, 1200, 1)) { in->done = 1 ; rec (in, "make-file-failed", -1, NULL, 0) ; return 0 ; }
 				if ((sp->format & SF_FORMAT_TYPEMASK) == SF_FORMAT_RAW) { si.format = sp->format ; si.channels = ch ; si.samplerate = 8000 ; } in->m.pos = 0 ;
 				in->s = sf_open_virtual (&MVIO, sp->kind == K_READ ? SFM_READ : SFM_RDWR, &si, &in->m) ; break ;
@@ -69,11 +70,13 @@ static int inst_step (INST *in)
 	switch (sp->kind)
 	{	case K_WRITE : case K_PATHWRITE : case K_SD2 :
 			if (st == 1) { int rc = sf_set_string (in->s, SF_STR_TITLE, "isolation") ; rec (in, "set_string", rc, NULL, 0) ; }
+			else if (st == 2 && (sp->seed & 0x30000) == 0x10000) { int rc = sf_command (in->s, SFC_TEST_IEEE_FLOAT_REPLACE, NULL, SF_TRUE) ; rec (in, "ieee-replace-on", rc, NULL, 0) ; }	/* a per-handle test switch: must stay per handle */
 			else if (st % 5 == 4) { sf_command (in->s, SFC_UPDATE_HEADER_NOW, NULL, 0) ; rec (in, "update-header", 0, NULL, 0) ; }
 			else { int fr = 1 + (int) (inst_rnd (in) % (st % 3 == 0 ? 3000 / ch : 90)), t = (in->t + st) % T_N ; sf_count_t w ; gen_frames (in, buf, t, fr) ; w = vh_write_t (in->s, t, st & 1, buf, (sf_count_t) fr * ch, ch) ; in->wrote += fr ; rec (in, "write", (long) w, NULL, 0) ; }
 			break ;
 		case K_READ :
-			if (st % 4 == 3) { sf_count_t tg = (sf_count_t) (inst_rnd (in) % 1200), q = sf_seek (in->s, tg, SEEK_SET) ; rec (in, "seek", (long) q, NULL, 0) ; }
+			if (st == 1 && (sp->seed & 0x30000) == 0x10000) { int rc = sf_command (in->s, SFC_TEST_IEEE_FLOAT_REPLACE, NULL, SF_TRUE) ; rec (in, "ieee-replace-on", rc, NULL, 0) ; }
+			else if (st % 4 == 3) { sf_count_t tg = (sf_count_t) (inst_rnd (in) % 1200), q = sf_seek (in->s, tg, SEEK_SET) ; rec (in, "seek", (long) q, NULL, 0) ; }
 			else if (st % 7 == 5) { double mx = -1 ; int rc = sf_command (in->s, SFC_CALC_SIGNAL_MAX, &mx, sizeof (mx)) ; rec (in, "calc-max", rc, &mx, 8) ; }
 			else if (st % 7 == 6) { const char *g = sf_get_string (in->s, SF_STR_TITLE) ; rec (in, "get_string", g ? (long) strlen (g) : -1, g, g ? strlen (g) : 0) ; }
 			else { int fr = 1 + (int) (inst_rnd (in) % 300), t = (in->t + st) % T_N ; sf_count_t r ; memset (buf, 0, (size_t) fr * ch * 8) ; r = vh_read_t (in->s, t, st & 1, buf, (sf_count_t) fr * ch, ch) ; rec (in, "read", (long) r, buf, (size_t) (r > 0 ? (r > (sf_count_t) fr * ch ? (sf_count_t) fr * ch : r) : 0) * vh_tsize [t]) ; }	/* never digest beyond the requested region (VOX returns count+1) */
@@ -129,6 +132,7 @@ static void compare (INST *in, const char *mode, int group)
 static SPEC mk_spec (int f, int kind, int nsteps)
 {	SPEC sp ; memset (&sp, 0, sizeof (sp)) ; sp.kind = kind ; sp.format = vh_fmts [f].format ; sp.ch = vh_accepts (sp.format, 2, 8000) && (vh_rnd () & 1) ? 2 : (vh_accepts (sp.format, 1, 8000) ? 1 : 2) ; sp.nsteps = nsteps ; sp.seed = vh_rnd () ;
 	if (kind == K_SD2) { sp.format = SF_FORMAT_SD2 | SF_FORMAT_PCM_16 ; sp.ch = 2 ; }
+	{	static const int rates [] = { 8000, 8000, 44100, 1, 11025, 0x40000000, 48000, 0x7fffffff, 8000, 2, 96000, 0x40000001 } ; sp.rate = rates [(sp.seed >> 20) % 12] ; if (!vh_accepts (sp.format, sp.ch, sp.rate)) sp.rate = 8000 ; }
 	return sp ; }
 static int sd2_index (void) { int i ; for (i = 0 ; i < vh_nfmts ; i++) if (vh_fmts [i].major == SF_FORMAT_SD2) return i ; return 0 ; }
 
